@@ -1,6 +1,7 @@
-(** ValidProofs.v — lemmas about the model of the validator (C04). *)
+(** ValidProofs.v — C04 proofs, assembly: Validator::validateModel against the specification WF. *)
 From Coq Require Import String Ascii List Bool Arith ZArith NArith QArith Lia.
-From LC Require Import Common NumDefs NumPosDefs MathDefs ValidDefs.
+From LC Require Import Common NumDefs NumPosDefs MathDefs ValidDefs ValidSpec ValidLeaf ValidMathProofs ValidCompProofs
+  ValidConnProofs ValidUnitsProofs.
 From LCGen Require RuleTable.
 Import ListNotations.
 Local Open Scope string_scope.
@@ -9,3 +10,107 @@ Local Open Scope list_scope.
 (** every rule the model can cite is an enumerator of the REGENERATED ReferenceRule enum *)
 Lemma rules_in_table : forallb (fun r => match vrule_num r with Some _ => true | None => false end) all_vrules = true.
 Proof. vm_compute. reflexivity. Qed.
+
+(* ------------------------------------------------------------------ de-duplication never hides the verdict *)
+
+Lemma dedup_nil : forall l, dedup l = [] <-> l = [].
+Proof.
+  intro l. unfold dedup. destruct l as [|[r|k] t]; [split; reflexivity | |]; cbn; split; intro H; discriminate H.
+Qed.
+
+Lemma nenames_all : forall (P : comp -> Prop) cs, (forall c, P c -> c_name (c_info c) <> "") ->
+  Forall P cs -> nenames cs = map cname cs.
+Proof.
+  intros P cs HP H. unfold nenames. induction H as [|c l Hc Hl IH]; [reflexivity|]. cbn [map filter].
+  pose proof (HP c Hc) as Hne. apply nonempty_iff in Hne. unfold cname at 1. rewrite Hne, IH. reflexivity.
+Qed.
+
+Section Main.
+  Variable fx : fixes.
+  Variable ueq : world -> string -> string -> option bool.
+
+  Lemma validate_nil_raw : forall W, validate fx ueq false W = [] <-> validate_raw fx ueq false W = [].
+  Proof. intro W. unfold validate. rewrite map_nil_iff. apply dedup_nil. Qed.
+
+  (** the two passes whose declarative counterpart is proved separately (and only on a sub-domain, see below) *)
+  Definition IdsOK (W : world) : Prop := check_unique_ids fx (model_at W 0) = [].
+  Definition OrdersOK (W : world) : Prop := check_unique_reset_orders (fx_reset_set fx) (model_at W 0) = [].
+
+  (** the models on which validateModel stays inside the validated model: no import source of model 0 has a model attached *)
+  Definition unresolved_world (W : world) : Prop :=
+    units_stay_local (model_at W 0) /\ Forall (fun c => unresolved (c_info c)) (model_comps (model_at W 0)).
+
+  Lemma comp_fuel_pos : forall W, exists f, comp_fuel W = S f.
+  Proof. intro W. unfold comp_fuel. eexists. reflexivity. Qed.
+
+  (** the component pass = every component fine + names unique *)
+  Lemma trees_pass_nil : forall W, Repr (model_at W 0) ->
+    Forall (fun c => unresolved (c_info c)) (model_comps (model_at W 0)) ->
+    (validate_trees (fx_math_qual fx) (comp_fuel W) W [] (m_comps (model_at W 0)) = [] <->
+     Forall (fun c => CompOK (fx_math_qual fx) W 0 (c_info c)) (model_comps (model_at W 0))
+     /\ NoDup (map (fun c => c_name (c_info c)) (model_comps (model_at W 0)))).
+  Proof.
+    intros W HR Hun. destruct (comp_fuel_pos W) as [f Hf]. rewrite Hf. rewrite validate_trees_nil.
+    unfold tree_ok. fold (model_comps (model_at W 0)). set (m := model_at W 0) in *. set (q := fx_math_qual fx).
+    assert (Hfine : forall c, In c (model_comps m) -> (comp_fine q (S f) W c <-> CompOKop q W 0 (c_info c))).
+    { intros c Hc. unfold comp_fine. apply validate_component_nil. rewrite Forall_forall in Hun. apply Hun. exact Hc. }
+    (* names of fine components are identifiers, hence non-empty *)
+    assert (Hnames : Forall (fun c => CompOKop q W 0 (c_info c)) (model_comps m) -> nenames (model_comps m) = map cname (model_comps m)).
+    { apply nenames_all. intros c [Hid _]. apply IsIdent_nonempty. exact Hid. }
+    split.
+    - intros [H1 [H2 _]].
+      assert (Hop : Forall (fun c => CompOKop q W 0 (c_info c)) (model_comps m)).
+      { rewrite Forall_forall in *. intros c Hc. apply (Hfine c Hc). apply H1. exact Hc. }
+      rewrite (Hnames Hop) in H2. split; [|exact H2].
+      rewrite Forall_forall in *. intros c Hc. specialize (Hop c Hc). unfold CompOKop, CompOK in *. fold m in Hop |- *.
+      destruct Hop as [A [B C]]. split; [exact A|]. split; [exact B|]. destruct (c_imp (c_info c)); [exact C|].
+      destruct C as [C1 [C2 [C3 C4]]]. repeat split; try assumption.
+      rewrite Forall_forall in *. intros r Hr. apply (reset_ok_iff q m c r HR H2 Hc). apply C3. exact Hr.
+    - intros [H1 H2].
+      assert (Hop : Forall (fun c => CompOKop q W 0 (c_info c)) (model_comps m)).
+      { rewrite Forall_forall in *. intros c Hc. specialize (H1 c Hc). unfold CompOKop, CompOK in *. fold m in H1 |- *.
+        destruct H1 as [A [B C]]. split; [exact A|]. split; [exact B|]. destruct (c_imp (c_info c)); [exact C|].
+        destruct C as [C1 [C2 [C3 C4]]]. repeat split; try assumption.
+        rewrite Forall_forall in *. intros r Hr. apply (reset_ok_iff q m c r HR H2 Hc). apply C3. exact Hr. }
+      split; [|split].
+      + rewrite Forall_forall in *. intros c Hc. apply (Hfine c Hc). apply Hop. exact Hc.
+      + rewrite (Hnames Hop). exact H2.
+      + intros n _ [].
+  Qed.
+
+  (** interfaces of the variables of non-imported components are valid strings once the components are fine *)
+  Lemma ifaces_valid : forall W,
+    Forall (fun c => CompOK (fx_math_qual fx) W 0 (c_info c)) (model_comps (model_at W 0)) ->
+    forall me, In me (model_locs (model_at W 0)) -> l_import me = false -> valid_iface (v_iface (l_var me)).
+  Proof.
+    intros W H me Hme Himp. destruct (in_model_locs _ _ Hme) as [c [Hc [Hv [_ [_ Hi]]]]].
+    rewrite Forall_forall in H. specialize (H c Hc). destruct H as [_ [_ H]]. rewrite Himp in Hi. unfold is_import_c in Hi.
+    destruct (c_imp (c_info c)); [discriminate Hi|]. destruct H as [H _]. rewrite Forall_forall in H.
+    destruct (H _ Hv) as [_ [_ [_ [H4 _]]]]. exact H4.
+  Qed.
+
+  (** THE MAIN EQUIVALENCE (the tree as it is now: no early exit in the interface scan) *)
+  Theorem validate_nil_iff : forall W, Repr (model_at W 0) -> unresolved_world W ->
+    (validate fx ueq false W = [] <-> WF fx ueq W /\ IdsOK W /\ OrdersOK W).
+  Proof.
+    intros W HR [Hu Hc]. rewrite validate_nil_raw. unfold validate_raw. cbv zeta.
+    rewrite !app_nil_iff, !plains_nil.
+    rewrite (if_nil_iff (is_ident (m_name (model_at W 0))) V_MODEL_NAME_VALUE), is_ident_iff.
+    rewrite (if_nil_iff (is_xml_name (m_id (model_at W 0))) V_XML_ID_ATTRIBUTE).
+    rewrite (trees_pass_nil W HR Hc), (units_pass_nil W Hu).
+    unfold IdsOK, OrdersOK. split.
+    - intros [H1 [H2 [[H3 H4] [[H5 [H6 [H7 H8]]] [H9 [H10 H11]]]]]]. split; [|split; assumption].
+      apply (validate_connections_nil ueq W (ifaces_valid W H3)) in H9.
+      constructor; assumption.
+    - intros [[A1 A2 A3 A4 A5 A6 A7 A8 A9] [B C]]. repeat split; try assumption.
+      apply (validate_connections_nil ueq W (ifaces_valid W A3)). exact A9.
+  Qed.
+
+  Corollary validate_complete : forall W, Repr (model_at W 0) -> unresolved_world W ->
+    WF fx ueq W -> IdsOK W -> OrdersOK W -> validate fx ueq false W = [].
+  Proof. intros W HR HU H1 H2 H3. apply (validate_nil_iff W HR HU). split; [exact H1 | split; assumption]. Qed.
+
+  Corollary validate_sound : forall W, Repr (model_at W 0) -> unresolved_world W ->
+    validate fx ueq false W = [] -> WF fx ueq W.
+  Proof. intros W HR HU H. apply (validate_nil_iff W HR HU) in H. tauto. Qed.
+End Main.
